@@ -38,7 +38,8 @@ func (s *scriptedSecrets) RADIUSSecret(ctx context.Context, a net.Addr) ([]byte,
 		<-h
 	}
 	if s.errs[a.String()] {
-		return nil, errors.New("no secret")
+		// an error together with a (stale) secret: the error decides
+		return s.secs[a.String()], errors.New("no secret")
 	}
 	return s.secs[a.String()], nil
 }
@@ -378,7 +379,7 @@ func b2i(b bool) int64 {
 
 func init() {
 	props["C06"] = func(c *Ctx) {
-		c.Res.Rule = "histories against the real PacketServer on a fake PacketConn: datagrams from 3 peers (two of them on one host with different ports; valid requests of every request code with few identifiers so that duplicates occur, exact retransmissions, forged Accounting/Disconnect/CoA requests, reply codes, garbage, over-long Length) interleaved with handler completions in random order; scripted SecretSource (secret / empty / error per peer), InsecureSkipVerify on and off; after each datagram the harness waits for the handler to start or for the datagram.done hook. Dispatch/drop decisions, request packet, dedup table size and the handler's reply are compared with the Coq model; request fields, reply destination and authenticator are checked directly; a separate scenario holds one datagram's secret lookup until the server has read the next datagram into its buffer and checks that each handler still receives its own peer's packet. non-trivial = history with at least one concurrent or repeated key"
+		c.Res.Rule = "histories against the real PacketServer on a fake PacketConn: datagrams from 3 peers (two of them on one host with different ports; valid requests of every request code with few identifiers so that duplicates occur, exact retransmissions, forged Accounting/Disconnect/CoA requests, reply codes, garbage, over-long Length) interleaved with handler completions in random order; scripted SecretSource (secret / empty / error, the error accompanied by a non-empty stale secret, per peer), InsecureSkipVerify on and off; after each datagram the harness waits for the handler to start or for the datagram.done hook. Dispatch/drop decisions, request packet, dedup table size and the handler's reply are compared with the Coq model; request fields, reply destination and authenticator are checked directly; a separate scenario holds one datagram's secret lookup until the server has read the next datagram into its buffer and checks that each handler still receives its own peer's packet. non-trivial = history with at least one concurrent or repeated key"
 		r := c.Rng.Fork()
 		n := c.N(300, 6000)
 		for i := 0; i < n; i++ {
